@@ -317,6 +317,16 @@ func sameValue(a, b ssa.Value) bool {
 	if a == b {
 		return true
 	}
+	// a is a load of a local cell whose only reaching store is b (results
+	// spilled because of defer/closures)
+	if la, ok := a.(*ssa.UnOp); ok && la.Op == token.MUL {
+		if al, ok := la.X.(*ssa.Alloc); ok {
+			st, zero := reachingStores(la, al)
+			if !zero && len(st) == 1 && st[0] == b {
+				return true
+			}
+		}
+	}
 	la, ok1 := a.(*ssa.UnOp)
 	lb, ok2 := b.(*ssa.UnOp)
 	if ok1 && ok2 && la.Op == token.MUL && lb.Op == token.MUL && la.X == lb.X {
@@ -862,4 +872,96 @@ func constBool(v ssa.Value) (bool, bool) {
 		return false, false
 	}
 	return constant.BoolVal(c.Value), true
+}
+
+// ---------------------------------------------------------------------------
+// closures
+
+// closureSite: the MakeClosure instruction that creates anonymous function g
+// inside its parent (nil if not found).
+func closureSite(g *ssa.Function) *ssa.MakeClosure {
+	p := g.Parent()
+	if p == nil {
+		return nil
+	}
+	var site *ssa.MakeClosure
+	allInstrs(p, func(in ssa.Instruction) {
+		if mc, ok := in.(*ssa.MakeClosure); ok && mc.Fn == ssa.Value(g) {
+			site = mc
+		}
+	})
+	return site
+}
+
+// anchorInOuter maps an instruction inside (possibly nested) anonymous
+// functions to the instruction of the outermost named function at which the
+// enclosing closure is created. For instructions of named functions it is the
+// instruction itself.
+func anchorInOuter(in ssa.Instruction) ssa.Instruction {
+	for in != nil && in.Parent() != nil && in.Parent().Parent() != nil {
+		site := closureSite(in.Parent())
+		if site == nil {
+			return nil
+		}
+		in = site
+	}
+	return in
+}
+
+// resolveFreeVar follows a free variable of a closure to the value bound at
+// the creation site (repeatedly).
+func resolveFreeVar(v ssa.Value) ssa.Value {
+	for {
+		fv, ok := v.(*ssa.FreeVar)
+		if !ok {
+			return v
+		}
+		g := fv.Parent()
+		site := closureSite(g)
+		if site == nil {
+			return v
+		}
+		idx := -1
+		for i, x := range g.FreeVars {
+			if x == fv {
+				idx = i
+			}
+		}
+		if idx < 0 || idx >= len(site.Bindings) {
+			return v
+		}
+		v = site.Bindings[idx]
+	}
+}
+
+// sameObject: a and b denote the same object, looking through free-variable
+// bindings, loads of the same local cell and loads of the same field of the
+// same base.
+func sameObject(a, b ssa.Value) bool {
+	a, b = resolveFreeVar(stripConv(a)), resolveFreeVar(stripConv(b))
+	if a == b {
+		return true
+	}
+	la, ok1 := a.(*ssa.UnOp)
+	lb, ok2 := b.(*ssa.UnOp)
+	if ok1 && ok2 && la.Op == token.MUL && lb.Op == token.MUL {
+		xa, xb := resolveFreeVar(la.X), resolveFreeVar(lb.X)
+		if xa == xb {
+			return true
+		}
+		fa, okA := xa.(*ssa.FieldAddr)
+		fb, okB := xb.(*ssa.FieldAddr)
+		if okA && okB && fa.Field == fb.Field && sameObject(fa.X, fb.X) {
+			return true
+		}
+	}
+	return false
+}
+
+func structOf(t types.Type) *types.Struct {
+	if p, ok := t.Underlying().(*types.Pointer); ok {
+		t = p.Elem()
+	}
+	st, _ := t.Underlying().(*types.Struct)
+	return st
 }
